@@ -4,7 +4,7 @@
 From Coq Require Import List Bool Arith NArith QArith.
 From DV Require Import Common.Res Common.Str Ext.Types Ext.Classes Ext.Seq Ext.Model Ext.Spec
      Ext.ProofsSimplifySeq Ext.ProofsSimplifyLayout Ext.ProofsSimplifyCanon Ext.ProofsCanonSubset
-     Ext.ProofsMergeFrame Ext.ProofsCanonMerge.
+     Ext.ProofsMergeFrame Ext.ProofsMerge Ext.ProofsCanonMerge Ext.ProofsCanonCorollaries.
 Import ListNotations.
 Local Open Scope nat_scope.
 
@@ -219,6 +219,36 @@ Theorem C06_const_readable :
     (forall p, in_dims (dims (hdr_of r)) p -> den vnone r k p = v) ->
     lookup_e r k = Some (GConst, [v]) /\ getitem r k = Ok v.
 Proof. exact @const_readable. Qed.
+
+(** in terms of the SOURCES (C03's denotation of the merge): a value identical, and not None, in every source at every
+    position is a global constant of the merged extension, readable without an index
+    ([den_in] = the source's denotation, without its per-slice classes when its slice normal differs from the result's;
+     [trailing1b] excludes the shapes of the open finding N4, as C03 does) *)
+Theorem C06_merge_const_readable :
+  forall (V : Type) (veqb : V -> V -> bool) (vnone : V), (forall a b, reflect (a = b) (veqb a b)) ->
+  forall (es : list (ext V)) (e0 : ext V) (dim : nat) (a : option (list (list Q))) (sd : option nat) (ax : axis)
+         (r : ext V) (k : key) (v : V),
+    inputs_ok es e0 sd -> (forall x, In x es -> nondegenerate x) ->
+    axis_of (out_sdim sd e0) dim = Some ax -> (3 <= dim -> out_sdim sd e0 <> None) ->
+    from_sequence veqb vnone es dim a sd = Ok r -> trailing1b (shape (hdr_of r)) = false ->
+    v <> vnone ->
+    (forall x q, In x es -> den_in vnone (hdr_of r) x k q = v) ->
+    lookup_e r k = Some (GConst, [v]) /\ getitem r k = Ok v.
+Proof. exact @merge_const_readable. Qed.
+
+(** non-vacuity: the same constant stored three different ways in three sources *)
+Definition ex_c_h : hdr := mk_hdr [1; 1; 2; 2] (Some 2) ex_aff true false.
+Definition ex_c_es : list (ext nat) :=
+  [mk_ext ex_c_h [([107]%N, (GConst, [7]))]; mk_ext ex_c_h [([107]%N, (TSamples, [7; 7]))];
+   mk_ext ex_c_h [([107]%N, (GSlices, [7; 7; 7; 7]))]].
+Example C06_merge_const_readable_example :
+  exists r, from_sequence Nat.eqb 0 ex_c_es 4 None None = Ok r /\ getitem r [107]%N = Ok 7 /\
+            shape (hdr_of r) = [1; 1; 2; 2; 3] /\ trailing1b (shape (hdr_of r)) = false /\
+            (forall e, In e ex_c_es -> validb e = true /\ nondegenerateb e = true).
+Proof.
+  eexists. split; [vm_compute; reflexivity|]. do 3 (split; [reflexivity|]).
+  intros x [<-|[<-|[<-|[]]]]; split; vm_compute; reflexivity.
+Qed.
 
 (** "None everywhere" keys: absent, or the global constant None - never in a varying class *)
 Theorem C06_none_dropped_partial :
